@@ -1,21 +1,12 @@
-# Per-property configuration of ./check (see DESIGN.md §3 for each property).
-ZSTD = "zstd (klauspost/compress) is not modelled: decompression enters the model as the finite payload->raw table observed by the harness and the theorems as a round-trip hypothesis on the block codec"
-REG = {
- "C10": {
-  "props": "props/C10.v", "harness": "c10", "model_vos": ["model/WalCheck.vo"],
-  "trusted_base": [ZSTD, "encoding/json of MetricsMeta entries is not modelled (payload -> entry ids table)"],
-  "assumptions": ["crash model: process crash; bytes already handed to write(2) survive, in order (single fd, append-only)",
-                  "single-byte damage model for the rejection theorem; damage to a length field changes the span that is checksummed and is rejected only up to a CRC-32 collision (stated, not proved)"],
- },
-}
-
+# Per-property configuration of ./check: one file lib/reg/<id>.json per claimed property:
+#   {"reg": {...driver configuration...}, "manifest": {"design_ref","technique","text","note"}}
+import glob, json, os
+_D = os.path.join(os.path.dirname(os.path.abspath(__file__)), "reg")
+REG, MANIFEST_TEXT = {}, {}
+for _f in sorted(glob.glob(os.path.join(_D, "C*.json"))):
+    _j = json.load(open(_f))
+    _id = os.path.basename(_f)[:-5]
+    REG[_id] = _j["reg"]
+    MANIFEST_TEXT[_id] = _j["manifest"]
+# properties not claimed, with the reason (kept current by hand)
 NOT_APPLICABLE = {}
-
-MANIFEST_TEXT = {
- "C10": {
-  "design_ref": "DESIGN.md §3 C10",
-  "technique": "Coq proof (induction over frames; CRC-32 linearity over GF(2)) + differential correspondence in Coq on every truncation and single-byte modification of real WAL files",
-  "text": "Theorems over the Gallina model of the WAL framing and its three iterators, for logs of any length and any item type: a log cut at any byte replays exactly the batches whose frames are complete, in order (C10_cut_replays_completed_prefix); a block with one altered checksum/payload byte is rejected and nothing after it is replayed (C10_damaged_block_rejected, from C10_crc32_detects_single_byte proved for all payload lengths). The model is tied to wal.go on every run: real NewWAL/Append/Write files must equal wal_file byte for byte (CRC-32 included) and the real iterators' output on every truncation and on sampled/all single-byte modifications must equal the model's replay, evaluated inside Coq.",
-  "note": "Trusted: Coq kernel, harness, zstd and encoding/json (enter as observed tables / round-trip hypothesis). Modelled not verified: recovery's grouping of WAL files per block and directory order; damage to a frame's size field is rejected only up to a CRC-32 collision over the shifted span; the crash model is process crash with append-only writes (no torn or reordered pages).",
- },
-}
